@@ -77,6 +77,7 @@ def recipes():
     R["TriU"] = lambda g, b: O.TriangularLinearOperator(g.tri(*b, upper=True), upper=True)
     R["TriU(TriU)"] = lambda g, b: O.TriangularLinearOperator(O.TriangularLinearOperator(g.tri(*b, upper=True), upper=True), upper=True)
     R["TriL(Toeplitz)"] = lambda g, b: O.TriangularLinearOperator(O.ToeplitzLinearOperator(torch.cat([g.P(*b, 1), 0 * g.T(*b, 2)], -1)))
+    R["TriL(Diag)"] = lambda g, b: O.TriangularLinearOperator(O.DiagLinearOperator(g.P(*b, 3)))
     R["CholL"] = lambda g, b: O.CholLinearOperator(O.TriangularLinearOperator(g.tri(*b)), upper=False)
     R["CholU"] = lambda g, b: O.CholLinearOperator(O.TriangularLinearOperator(g.tri(*b, upper=True), upper=True), upper=True)
     R["Root"] = lambda g, b: O.RootLinearOperator(g.T(*b, 3, 2))
@@ -389,7 +390,7 @@ def apply_op(o, opname, other=None):
     raise KeyError(opname)
 
 
-def observe(o, dt, g):
+def observe(o, dt, g, solve=False):
     """name -> ('ok', dtype name, tensor) | ('exc', exception class name) for every tensor-returning entry point we probe"""
     res = OrderedDict()
 
@@ -426,10 +427,12 @@ def observe(o, dt, g):
         rec("diagonal", lambda: o.diagonal())
         rec("add_jitter", lambda: o.add_jitter(1.0).to_dense())
         rec("add_diagonal", lambda: o.add_diagonal(torch.ones(n, dtype=dt)).to_dense())
+        if solve:
+            rec("solve", lambda: o.solve(rhs))
     return res
 
 
-SOLVE_OK = ("Diag", "ConstantDiag", "Identity", "TriL", "TriU", "CholL", "KronDiag", "KronTriL", "KronTriU", "Perm", "TransposePerm")
+SOLVE_OK = ("Diag", "ConstantDiag", "Identity", "TriL", "TriU", "CholL", "KronDiag", "KronTriL", "Perm", "TriL(Diag)")
 
 
 def storages(enc, o):
@@ -490,7 +493,8 @@ def run_case(chk, enc, R, case, opnames, lines, expect, overridden):
         chk.count("batch:" + bname(case.b))
         # dtype of the operator itself and of what it returns (no conversion at all)
         o_dtype = o.dtype
-        obs_o = observe(o, eff_src, g)
+        solve = case.recipe in SOLVE_OK
+        obs_o = observe(o, eff_src, g, solve)
         if True:
             if o_dtype != eff_src:
                 chk.violation(f"{base_cell}/construct/dtype:attr", f"{cfgs}: operator built from {DTN[case.src]} data reports dtype {o_dtype}", case.payload("construct"))
@@ -614,9 +618,9 @@ def run_case(chk, enc, R, case, opnames, lines, expect, overridden):
             # (b,c) values and dtypes of everything returned
             g.set_state(gstate)
             if ref_obs is None:
-                ref_obs = observe(other, eff_src, g)
+                ref_obs = observe(other, eff_src, g, solve)
                 g.set_state(gstate)
-            obs_r = observe(r, tgt, g)
+            obs_r = observe(r, tgt, g, solve)
             for name, (st, d, v) in obs_r.items():
                 st0, d0, v0 = ref_obs.get(name, ("exc", "missing", None))
                 if st == "exc":
@@ -647,7 +651,7 @@ def run_case(chk, enc, R, case, opnames, lines, expect, overridden):
                 ids, pos_ids = enc.ref_ids(o)
                 enc_o = enc.encode(o, ids, pos_ids)
                 g.set_state(gstate)
-                obs_o = observe(o, eff_src, g)
+                obs_o = observe(o, eff_src, g, solve)
                 fl_o = flags(o, enc)
     finally:
         torch.set_default_dtype(prev)
